@@ -13,6 +13,7 @@ import (
 	"unicode"
 
 	"github.com/cespare/xxhash/v2"
+	"golang.org/x/tools/go/ssa"
 )
 
 type native func(fr *frame, args []value) (value, bool)
@@ -864,6 +865,32 @@ func registerSync() {
 		s.block("wg.Wait", func() bool { return w.n == 0 })
 		return nil, true
 	}
+}
+
+func init() {
+	// sync.Pool without pooling: Get builds a new object (or nil), Put drops it.
+	nativeIntrinsics["(*sync.Pool).Get"] = func(fr *frame, a []value) (value, bool) {
+		p := a[0].(*value)
+		if p == nil {
+			panic(rtError("invalid memory address or nil pointer dereference"))
+		}
+		st := (*p).(structure)
+		T := fr.fn.Signature.Recv().Type().Underlying().(*types.Pointer).Elem().Underlying().(*types.Struct)
+		for k := 0; k < T.NumFields(); k++ {
+			if T.Field(k).Name() == "New" {
+				switch f := st[k].(type) {
+				case *closure:
+					return call(fr.i, fr, token.NoPos, f, nil), true
+				case *ssa.Function:
+					if f != nil {
+						return call(fr.i, fr, token.NoPos, f, nil), true
+					}
+				}
+			}
+		}
+		return iface{}, true
+	}
+	nativeIntrinsics["(*sync.Pool).Put"] = func(fr *frame, a []value) (value, bool) { return nil, true }
 }
 
 func (r *pathRun) wg(p value) *wgState {
